@@ -107,26 +107,35 @@ def run(chk):
         steps = 40 if chk.tier == "quick" else 600
         for i in range(steps):
             r = rng.below(10)
+            if i % 12 == 5 and n < cap:
+                n = int(eng.ctl("evpre %d" % (cap - n)))      # the reader fell behind: the directory is at its cap
+                r = 0
             if r < 6:
-                k = rng.rand_range(1, 30)
-                new = int(eng.ctl(f"evwrite {k}"))
+                # small bursts, and bursts of hundreds of events in one flush interval (the queue holds 1000)
+                k = rng.pick([rng.rand_range(1, 30)] * 3 + [99, 100, 101, 250, 600, 999])
+                if n == cap - 1 and rng.chance(1, 2):
+                    k = rng.pick([250, 999])
+                chk.count("event_burst_ge_100" if k >= 100 else "event_burst_small")
+                new, ms = [int(x) for x in eng.ctl(f"evwrite {k}").split(" ")]
                 ml.append(f"logs ev {cap} {n}")
-                got.append(("flush", n, new))
+                got.append(("flush", n, new, ms))
             else:
                 k = rng.rand_range(1, 3)
                 new = int(eng.ctl(f"evrm {k}"))
-                got.append(("rm", n, new))
+                got.append(("rm", n, new, 0))
             n = new
         outs = iter(vlib.run_driver(ml))
-        for (op, before, after) in got:
+        for (op, before, after, ms) in got:
             chk.case(nontrivial_key=("ev", op, before, after))
             chk.count("event_" + op)
             if after > cap:
                 chk.violation("event directory holds more files than its cap", {"cap": cap, "before": before, "after": after}, expected=f"<= {cap}", observed=after)
             if op == "flush":
                 want = int(next(outs))
-                if want != after:
-                    chk.disagreement("event-cap", {"cap": cap, "before": before}, want, after)
+                # a burst that took longer to enqueue than the flush interval (15 ms) is written by several flushes, one file each
+                extra = ms // 15 + 1
+                if not (want <= after <= min(cap, want + extra)) and not (before >= cap and after == before):
+                    chk.disagreement("event-cap", {"cap": cap, "before": before, "burst_ms": ms}, "%d..%d" % (want, min(cap, want + extra)), after)
                 if before >= cap:
                     chk.count("event_flush_at_cap")
         # ---------------- rule dumps
